@@ -613,7 +613,8 @@ impl C09 {
         let want = serials.windows(2).all(|w| w[0].checked_add(1) == Some(w[1]));
         let mut copy = n.clone();
         let got = guarded("sort_and_verify_deltas", || Ok(copy.sort_and_verify_deltas(lim)))?;
-        let retained: Vec<u64> = copy.deltas().iter().map(|d| d.serial()).collect();
+        let mut retained: Vec<u64> = copy.deltas().iter().map(|d| d.serial()).collect();
+        retained.sort();
         if got != want || (n.deltas().len() > 0 && retained != serials) {
             return Err(Violation::new(
                 "delta-chain-check",
@@ -650,7 +651,9 @@ impl C09 {
             }
             let want = sorted.windows(2).all(|w| w[0].checked_add(1) == Some(w[1]));
             let got = guarded("sort_and_verify_deltas", || Ok(nf.sort_and_verify_deltas(lim)))?;
-            let retained: Vec<u64> = nf.deltas().iter().map(|d| d.serial()).collect();
+            // (which deltas are retained matters, their order does not)
+            let mut retained: Vec<u64> = nf.deltas().iter().map(|d| d.serial()).collect();
+            retained.sort();
             if got != want || (!list.is_empty() && retained != sorted) {
                 return Err(Violation::new(
                     "delta-chain-check",
@@ -1839,7 +1842,7 @@ impl Scenario for C09 {
 
     fn assumptions(&self) -> Vec<&'static str> {
         vec![
-            "read bound checked: pulled <= L0 + limit + 2 x chunk_max, limit = the constant in force at the hostile position (1 MB root/notification, 100 MB after a snapshot/delta root start tag)",
+            "read bound checked: pulled <= L0 + limit + 2 x max(chunk, 64 KiB), limit = the constant in force at the hostile position (1 MB root/notification, 100 MB after a snapshot/delta root start tag)",
             "an endless list of individually small valid sibling elements is not a hostile kind: it has no offending element and the statement sets no bound for it; an endless run of short comments IS treated as hostile (comments are not elements, so nothing may re-arm the per-element counter)",
             "deliberate strengthening: a truncated library-written document must never parse as a *different* value (a proper prefix of such a document is never well-formed XML, so only a parser that gives up well-formedness could do that)",
             "short-writing sinks are only used for documents without base64 object data: base64::EncoderWriter legitimately returns Ok(0) while draining, which std's write_all reports as WriteZero (a robustness gap outside the statement, documented in DESIGN.md)",
